@@ -48,6 +48,10 @@ def classify(case, ob, raw):
     if call in DIFF_CALLS and arg in ('b', 'local', 'remote') and all(_is_value_path(p) for p, q in pairs) \
             and (call != 'merge_notebooks' or all(p and p[0] == 1 for p, q in pairs)):
         return 'diff-value-shares-target-object'
+    if call in ('decide_notebook_merge', 'merge_notebooks', 'decide_merge') and arg == 'base' \
+            and all(_is_value_path(p) and 'custom_diff' in p for p, q in pairs) \
+            and (call != 'merge_notebooks' or all(p and p[0] == 1 for p, q in pairs)):
+        return 'decision-custom-diff-shares-base-object'
     return raw + ':at:' + json.dumps(pairs[0][0])[:80]
 
 # ------------------------------------------------------------------------------------------ cases
